@@ -168,3 +168,61 @@ lp_harness!(c08_r1_string_0, 0, mk_string, string_bytes, String);
 lp_harness!(c08_r1_string_1, 1, mk_string, string_bytes, String);
 lp_harness!(c08_r1_string_2, 2, mk_string, string_bytes, String);
 lp_harness!(c08_r1_string_3, 3, mk_string, string_bytes, String);
+
+/// Multi-byte UTF-8 (the ASCII harnesses above cannot see a length prefix that counts characters instead of bytes).
+/// Encode side, symbolic: every string made of ONE two-byte scalar (U+0080..U+07FF) optionally preceded by one ASCII
+/// byte: the prefix is the BYTE length, the payload is the bytes, estimated_size matches.  Decode side: concrete
+/// multi-byte strings (validation of symbolic multi-byte input is out of CBMC's reach) round-trip.
+verif_harness! { c08_r1_string_multibyte, 12, {
+    let lead: u8 = kani::any();
+    let cont: u8 = kani::any();
+    kani::assume(lead >= 0xC2 && lead <= 0xDF && cont >= 0x80 && cont <= 0xBF);
+    let with_ascii: bool = kani::any();
+    let a: u8 = kani::any();
+    kani::assume(a < 0x80);
+    let mut v: Vec<u8> = Vec::with_capacity(3);
+    if with_ascii { v.push(a); }
+    v.push(lead);
+    v.push(cont);
+    let l = v.len();
+    let x = unsafe { String::from_utf8_unchecked(v) };
+    let mut buf = [0u8; 16];
+    let rem = { let mut w = &mut buf[..]; x.encode(&mut w).unwrap(); w.len() };
+    assert!(16 - rem == 8 + l, "C08-R1: String encoding has wrong size for multi-byte content");
+    assert!(x.estimated_size() == 8 + l, "C08-R1: estimated_size != bytes written (multi-byte)");
+    let mut lb = [0u8; 8];
+    lb.copy_from_slice(&buf[..8]);
+    assert!(u64::from_le_bytes(lb) as usize == l, "C08-R1: String length prefix is not the number of payload bytes written");
+    let xb = x.as_bytes();
+    let mut i = 0;
+    while i < 3 { if i < l { assert!(buf[8 + i] == xb[i]); } i += 1; }
+    kani::cover!(with_ascii, "ascii + two-byte char");
+    kani::cover!(true, "end reached");
+    std::mem::forget(x);
+} }
+verif_harness! { c08_r1_string_multibyte_concrete, 40, {
+    // concrete multi-byte strings through encode AND decode (UTF-8 validation runs on concrete bytes)
+    let samples: [&str; 3] = ["\u{e9}", "a\u{65e5}", "\u{1f600}b"];
+    let mut k = 0;
+    while k < 3 {
+        let x = samples[k].to_string();
+        let mut buf = [0u8; 24];
+        let rem = { let mut w = &mut buf[..]; x.encode(&mut w).unwrap(); w.len() };
+        assert!(24 - rem == 8 + x.len());
+        let mut r = &buf[..24 - rem];
+        let y = String::decode(&mut r).expect("C08-R1: multi-byte String does not decode");
+        assert!(r.is_empty());
+        assert!(y.as_bytes() == x.as_bytes(), "C08-R1: multi-byte String changed in round trip");
+        std::mem::forget((x, y));
+        k += 1;
+    }
+    kani::cover!(true, "end reached");
+} }
+
+// native replay of counterexamples: bin/check writes the unit test Kani generated (`--concrete-playback=print`) into the
+// included file and runs `cargo kani playback`; the file is empty otherwise.
+#[allow(unused_imports, dead_code)]
+mod playback {
+    use super::*;
+    include!("/verif/harness/playback/foyer-common/code__verif_kani.rs");
+}
